@@ -1025,6 +1025,44 @@ def _new_properties(P: Program):
     return _PROP_CACHE[k][1], _PROP_CACHE[k][2]
 
 
+_FT_CACHE: Dict = {}
+
+
+def _field_types(P: Program) -> Dict[str, Set[str]]:
+    """field name -> the package classes its annotations name, over all classes that have a field of that name (`self.f = p` with p annotated, `f: T` in a
+    class body); a field without a usable annotation somewhere maps to the empty set"""
+    k = id(P)
+    if k not in _FT_CACHE or _FT_CACHE[k][0] is not P:
+        classes = {cn for m in P.real_modules() for cn in m.classes}
+        out: Dict[str, Set[str]] = {}
+        unknown: Set[str] = set()
+
+        def named(ann) -> Set[str]:
+            if ann is None:
+                return set()
+            txt = ast.unparse(ann)
+            import re as _re
+            return {w for w in _re.findall(r"[A-Za-z_][A-Za-z_0-9]*", txt) if w in classes}
+        for m in P.real_modules():
+            for cn, c in m.classes.items():
+                for st in c.node.body:
+                    if isinstance(st, ast.AnnAssign) and isinstance(st.target, ast.Name):
+                        t = named(st.annotation)
+                        (out.setdefault(st.target.id, set()).update(t)) if len(t) == 1 else unknown.add(st.target.id)
+                    if isinstance(st, (ast.FunctionDef, ast.AsyncFunctionDef)) and st.args.args:
+                        selfn = st.args.args[0].arg
+                        anns = {a_.arg: a_.annotation for a_ in st.args.args + st.args.kwonlyargs}
+                        for x in ast.walk(st):
+                            if isinstance(x, ast.Assign) and len(x.targets) == 1 and isinstance(x.targets[0], ast.Attribute) and norm.is_name(x.targets[0].value, selfn):
+                                fld = x.targets[0].attr
+                                t = named(anns.get(x.value.id)) if isinstance(x.value, ast.Name) and x.value.id in anns else set()
+                                (out.setdefault(fld, set()).update(t)) if len(t) == 1 else unknown.add(fld)
+        for u in unknown:
+            out[u] = set()
+        _FT_CACHE[k] = (P, out)
+    return _FT_CACHE[k][1]
+
+
 def _inline_new_properties(P: Program, f: Func) -> Func:
     """`x.p` where p is a read-only one-expression property that the pinned tree does not have and x can only be an instance of the class that defines it
     (x is `self` inside that class, or every attribute the function uses on x exists on that class and on no other class of the package) stands
@@ -1032,7 +1070,8 @@ def _inline_new_properties(P: Program, f: Func) -> Func:
     props, attrs = _new_properties(P)
     if not props:
         return f
-    uses = [a for a in own_nodes(f.node) if isinstance(a, ast.Attribute) and isinstance(a.ctx, ast.Load) and a.attr in props and isinstance(a.value, ast.Name)]
+    uses = [a for a in own_nodes(f.node) if isinstance(a, ast.Attribute) and isinstance(a.ctx, ast.Load) and a.attr in props
+            and (isinstance(a.value, ast.Name) or norm.attr_chain(a.value) is not None)]
     if not uses:
         return f
     used_on: Dict[str, Set[str]] = {}
@@ -1048,7 +1087,13 @@ def _inline_new_properties(P: Program, f: Func) -> Func:
         return cands[0] if len(cands) == 1 else None
     plan = {}
     for a in uses:
-        c = class_of(a.value.id)
+        if isinstance(a.value, ast.Name):
+            c = class_of(a.value.id)
+        else:
+            # `x.y.p`: the field y is declared (annotation of the constructor parameter it is stored from, or of the dataclass field) to hold
+            # instances of one class of the package, in every class that has a field of that name
+            ft = _field_types(P).get(a.value.attr, set()) if isinstance(a.value, ast.Attribute) else set()
+            c = next(iter(ft)) if len(ft) == 1 else None
         hit = [(cn, sp, e) for cn, sp, e in props[a.attr] if cn == c]
         if c is not None and len(hit) == 1:
             plan[id(a)] = hit[0]
@@ -1648,13 +1693,19 @@ def inline_helpers(P: Program, f: Func, depth: int = 2) -> Func:
     if hit is None or hit[0] is not P or hit[1] is not f.node:
         from .erase import erase
         f0 = f
+        f = _walrus(f)                               # `if not (x := E):` is `x = E; if not x:`
         f = _inline_new_properties(P, f)             # `c.ram` (a new read-only property) is `c.assignment.ram`
         v = _inline_helpers(P, f, depth)
+        if v is not f:
+            v2 = _walrus(v)                          # ... also inside what was looked through
+            if v2 is not v:
+                v = _inline_helpers(P, v2, depth)
         v = _inline_new_properties(P, v)             # ... also where it came in with a looked-through method (`self.ram` with self := c)
         if v is not f:
             v = _search_result_flow(v)               # what an Optional-returning search helper leaves behind
             v = _list_copy_alias(v)                  # `xs = list(<materialised generator>)`
         v = _plain_assignments(v)
+        v = _local_tuples(P, v)                      # `x = R(a, b)` read only as x.f: the record is never built
         v = _local_objects(P, v)                     # a never-escaping instance of a small new class is a bundle of locals
         v = _plain_assignments(v)
         v = _bucket_reads(v)                         # group-by-field dict + lookup  ==  filter by that field
@@ -1940,7 +1991,7 @@ def _search_result_flow_once(f: Func) -> Func:
                         continue
                     X = guard.test.left.id
                     lv = leaves([cs], X)
-                    if lv is None or len(lv) > 4:
+                    if lv is None or len(lv) > 8:
                         continue
                     rest = blk[i + 2:] if not positive else guard.body
                     if positive:
@@ -2404,11 +2455,176 @@ def _genexp_loops(f: Func) -> Func:
     return Func(f.mod, f.qual, node, f.cls)
 
 
+def _local_tuples(P: Program, f: Func) -> Func:
+    """`x = R(a, b)` with R a NamedTuple of the package (also one the pinned tree has), x bound once and only ever read as `x.<field>`, the arguments plain
+    names / fields / constants that are not bound again afterwards: every `x.<field>` is that argument and the record is never built."""
+    nts = {}
+    for m in P.real_modules():
+        for cname, c in m.classes.items():
+            if any(isinstance(b, ast.Name) and b.id == "NamedTuple" for b in c.node.bases):
+                nts[cname] = [st.target.id for st in c.node.body if isinstance(st, ast.AnnAssign) and isinstance(st.target, ast.Name)]
+    cands = [n for n in own_nodes(f.node) if isinstance(n, ast.Assign) and len(n.targets) == 1 and isinstance(n.targets[0], ast.Name) and isinstance(n.value, ast.Call)
+             and isinstance(n.value.func, ast.Name) and n.value.func.id in nts]
+    if not cands:
+        return f
+    stores: Dict[str, int] = {}
+    for x in own_nodes(f.node):
+        if isinstance(x, ast.Name) and isinstance(x.ctx, (ast.Store, ast.Del)):
+            stores[x.id] = stores.get(x.id, 0) + 1
+    order = source_order(f.node)
+    for d in cands:
+        x, fields = d.targets[0].id, nts[d.value.func.id]
+        call = d.value
+        if stores.get(x) != 1 or x in f.params() or len(call.args) > len(fields) or any(k.arg is None or k.arg not in fields for k in call.keywords):
+            continue
+        vals = dict(zip(fields, call.args))
+        vals.update({k.arg: k.value for k in call.keywords})
+        if set(vals) != set(fields) or not all(isinstance(v, (ast.Name, ast.Constant)) or norm.attr_chain(v) is not None for v in vals.values()):
+            continue
+        loads = [n for n in own_nodes(f.node) if isinstance(n, ast.Name) and n.id == x and isinstance(n.ctx, ast.Load)]
+        if not loads or not all(isinstance(parent(n), ast.Attribute) and parent(n).value is n and parent(n).attr in fields and isinstance(parent(n).ctx, ast.Load) for n in loads):
+            continue
+        if any(order.get(id(n), (0, 0))[0] < order.get(id(d), (0, 0))[1] for n in loads):
+            continue
+        # operands stay what they were: every name they read is bound at most once in the function, or is a loop variable of a loop around the definition
+        roots = {y.id for v in vals.values() for y in ast.walk(v) if isinstance(y, ast.Name)}
+        around = {t.id for l_ in _loops_around(d, f.node) if isinstance(l_, (ast.For, ast.AsyncFor)) for t in ast.walk(l_.target) if isinstance(t, ast.Name)}
+        if any(stores.get(r, 0) > (0 if r in f.params() else 1) and r not in around for r in roots):
+            continue
+        if any(r in around and any(not any(n is y for l_ in _loops_around(d, f.node) for y in ast.walk(l_)) for n in loads) for r in roots):
+            continue
+        node = norm.clone(f.node)
+        m = {id(a): b for a, b in zip(ast.walk(f.node), ast.walk(node))}
+        cd = m[id(d)]
+        for n in loads:
+            at = m[id(parent(n))]
+            new = norm.clone(m[id(vals[at.attr])])
+            keep = {k2: getattr(at, k2) for k2 in ("lineno", "col_offset", "end_lineno", "end_col_offset") if hasattr(at, k2)}
+            at.__class__ = new.__class__
+            at.__dict__.clear()
+            at.__dict__.update(new.__dict__)
+            at.__dict__.update(keep)
+        par = m[id(parent(d))]
+        for _fld, blk in _block_lists(par):
+            if any(b is cd for b in blk):
+                blk[:] = [b for b in blk if b is not cd] or [ast.copy_location(ast.Pass(), cd)]
+        ast.fix_missing_locations(node)
+        for n in ast.walk(node):
+            for ch in ast.iter_child_nodes(n):
+                ch._parent = n  # type: ignore[attr-defined]
+        node._parent = getattr(f.node, "_parent", None)  # type: ignore[attr-defined]
+        return _local_tuples(P, Func(f.mod, f.qual, node, f.cls))
+    return f
+
+
+def _walrus(f: Func) -> Func:
+    """`if (x := E) ..:` / `if not (x := E):` / `if (x := E) is None:` (the assignment expression is the first thing the test evaluates) is
+    `x = E` followed by the test on x;  `X = [ELT for v in IT if (w := E) TEST]` is the loop `X = []; for v in IT: w = E; if w TEST: X.append(ELT)`."""
+    if not any(isinstance(n, ast.NamedExpr) for n in own_nodes(f.node)):
+        return f
+    node = norm.clone(f.node)
+    changed = False
+
+    def first_evaluated(t):
+        """the NamedExpr that is evaluated before anything else in test t (as the holder attribute path), else None"""
+        if isinstance(t, ast.NamedExpr):
+            return t
+        if isinstance(t, ast.UnaryOp) and isinstance(t.op, ast.Not):
+            return first_evaluated(t.operand)
+        if isinstance(t, ast.Compare):
+            return first_evaluated(t.left)
+        if isinstance(t, ast.BoolOp):
+            return first_evaluated(t.values[0])
+        return None
+
+    def replace(t, ne):
+        for x in ast.walk(t):
+            for fld, val in ast.iter_fields(x):
+                if val is ne:
+                    setattr(x, fld, ast.copy_location(ast.Name(id=ne.target.id, ctx=ast.Load()), ne))
+                elif isinstance(val, list):
+                    for i_, v_ in enumerate(val):
+                        if v_ is ne:
+                            val[i_] = ast.copy_location(ast.Name(id=ne.target.id, ctx=ast.Load()), ne)
+    for owner in list(ast.walk(node)):
+        for fld, blk in _block_lists(owner):
+            i = 0
+            while i < len(blk):
+                st = blk[i]
+                if isinstance(st, ast.If):
+                    ne = first_evaluated(st.test)
+                    if ne is not None and isinstance(ne.target, ast.Name) and sum(1 for x in ast.walk(st.test) if isinstance(x, ast.NamedExpr)) == 1:
+                        asg = ast.copy_location(ast.Assign(targets=[ast.Name(id=ne.target.id, ctx=ast.Store())], value=ne.value), st)
+                        if st.test is ne:
+                            st.test = ast.copy_location(ast.Name(id=ne.target.id, ctx=ast.Load()), ne)
+                        else:
+                            replace(st.test, ne)
+                        blk[i:i] = [asg]
+                        changed = True
+                        i += 2
+                        continue
+                if isinstance(st, ast.Assign) and len(st.targets) == 1 and isinstance(st.targets[0], ast.Name) and isinstance(st.value, ast.ListComp) \
+                        and len(st.value.generators) == 1 and len(st.value.generators[0].ifs) == 1 and not st.value.generators[0].is_async:
+                    gen = st.value.generators[0]
+                    ne = first_evaluated(gen.ifs[0])
+                    if ne is not None and isinstance(ne.target, ast.Name) and sum(1 for x in ast.walk(st.value) if isinstance(x, ast.NamedExpr)) == 1 \
+                            and st.targets[0].id not in {x.id for x in ast.walk(st.value) if isinstance(x, ast.Name)}:
+                        X = st.targets[0].id
+                        asg = ast.Assign(targets=[ast.Name(id=ne.target.id, ctx=ast.Store())], value=ne.value)
+                        test = gen.ifs[0]
+                        if test is ne:
+                            test = ast.Name(id=ne.target.id, ctx=ast.Load())
+                        else:
+                            replace(test, ne)
+                        app = ast.Expr(value=ast.Call(func=ast.Attribute(value=ast.Name(id=X, ctx=ast.Load()), attr="append", ctx=ast.Load()), args=[st.value.elt], keywords=[]))
+                        tgt = gen.target
+                        for x in ast.walk(tgt):
+                            if isinstance(x, ast.Name):
+                                x.ctx = ast.Store()
+                        lp = ast.For(target=tgt, iter=gen.iter, body=[asg, ast.If(test=test, body=[app], orelse=[])], orelse=[], type_comment=None)
+                        init = ast.Assign(targets=[ast.Name(id=X, ctx=ast.Store())], value=ast.List(elts=[], ctx=ast.Load()))
+                        for z in (init, lp):
+                            for x in ast.walk(z):
+                                if not hasattr(x, "lineno"):
+                                    ast.copy_location(x, st)
+                        blk[i:i + 1] = [init, lp]
+                        changed = True
+                        i += 2
+                        continue
+                i += 1
+    if not changed:
+        return f
+    ast.fix_missing_locations(node)
+    for n in ast.walk(node):
+        for ch in ast.iter_child_nodes(n):
+            ch._parent = n  # type: ignore[attr-defined]
+    node._parent = getattr(f.node, "_parent", None)  # type: ignore[attr-defined]
+    return Func(f.mod, f.qual, node, f.cls)
+
+
 def _plain_assignments(f: Func) -> Func:
     """`x: T = e` on a local name is `x = e` for the rules (a bare `x: T` declares nothing at run time and is dropped)."""
-    if not any(isinstance(n, ast.AnnAssign) and isinstance(n.target, ast.Name) for n in own_nodes(f.node)):
+    def _pair(n):
+        return isinstance(n, ast.Assign) and len(n.targets) == 1 and isinstance(n.targets[0], ast.Tuple) and isinstance(n.value, ast.Tuple) \
+            and len(n.targets[0].elts) == len(n.value.elts) and all(isinstance(t, ast.Name) for t in n.targets[0].elts) \
+            and not any(isinstance(e, ast.Starred) for e in n.value.elts) \
+            and not ({t.id for t in n.targets[0].elts} & {x.id for e in n.value.elts for x in ast.walk(e) if isinstance(x, ast.Name)}) \
+            and len({t.id for t in n.targets[0].elts}) == len(n.targets[0].elts)
+    if not any((isinstance(n, ast.AnnAssign) and isinstance(n.target, ast.Name)) or _pair(n) for n in own_nodes(f.node)):
         return f
     node = norm.clone(f.node) if not getattr(f.node, "_is_view_copy", False) else f.node
+    # `a, b = (e1, e2)` where no ei reads a target: `a = e1; b = e2`
+    for owner in list(ast.walk(node)):
+        for _fld, blk in _block_lists(owner):
+            k_ = 0
+            while k_ < len(blk):
+                st_ = blk[k_]
+                if _pair(st_):
+                    new_ = [ast.copy_location(ast.Assign(targets=[t], value=v), st_) for t, v in zip(st_.targets[0].elts, st_.value.elts)]
+                    blk[k_:k_ + 1] = new_
+                    k_ += len(new_)
+                    continue
+                k_ += 1
 
     class T(ast.NodeTransformer):
         def visit_AnnAssign(self, n: ast.AnnAssign):
